@@ -1392,6 +1392,11 @@ func (fx *FnExec) execConvert(st *State, in *ssa.Convert) {
 				s := fx.sc.Define(in.Name(), App("seq2str", SInt, b))
 				fx.sc.Assume(Eq(App("strlen", SInt, s), App("sl.len", SInt, x)))
 				fx.sc.Assume(Eq(Eq(s, TZero), Eq(App("sl.len", SInt, x), TZero)))
+				// the characters of the new string are the bytes of the slice at the time of the conversion
+				fx.sc.Declare("uf:strat", "(declare-fun strat (Int Int) Int)")
+				arr := Select(fx.Heap(st, fx.tc.ElemKey(types.Typ[types.Uint8])), App("sl.base", SInt, x))
+				fx.sc.Assume(Term{fmt.Sprintf("(forall ((i!q Int)) (! (=> (and (<= 0 i!q) (< i!q (sl.len %s))) (= (strat %s i!q) (select %s (+ (sl.off %s) i!q)))) :pattern ((strat %s i!q))))",
+					x.S, s.S, arr.S, x.S, s.S), SBool})
 				fx.vals[in] = s
 				return
 			}
